@@ -35,6 +35,29 @@ def graph_lexicon(rng):
     return ('gr:1', {'lmf_version': '1.3', 'lexicons': [lex]}), ['word0', 'word1', 'word1', 'word2', 'zzz']
 
 
+def morphy_lexicon():
+    """words whose lemma exists for several parts of speech, and inflected forms that several rules map onto them: with a
+    Morphy lemmatizer and no pos the order of the proposals becomes the order of the results"""
+    lid = 'mo'
+    lex = {'id': lid, 'label': 'morphy', 'language': 'en', 'email': 'e', 'license': 'l', 'version': '1', 'meta': None,
+           'entries': [], 'synsets': []}
+    k = 0
+    for form, poses, extra in (('fast', 'nvar', []), ('glass', 'nv', []), ('base', 'nva', []), ('basis', 'n', ['bases']),
+                               ('leave', 'vn', []), ('leaf', 'n', ['leaves']), ('well', 'ranv', ['better']),
+                               ('good', 'an', ['better', 'best']), ('hard', 'ar', [])):
+        for pos in poses:
+            k += 1
+            ssid = '%s-s%d' % (lid, k)
+            lex['synsets'].append({'id': ssid, 'ili': '', 'partOfSpeech': pos, 'relations': [], 'meta': None})
+            lex['entries'].append({'id': '%s-e%d' % (lid, k), 'meta': None,
+                                   'lemma': {'writtenForm': form, 'partOfSpeech': pos},
+                                   'forms': [{'writtenForm': f} for f in extra],
+                                   'senses': [{'id': '%s-e%d-1' % (lid, k), 'synset': ssid, 'meta': None}]})
+    forms = ['fast', 'fasts', 'fasted', 'faster', 'fastest', 'glasses', 'bases', 'leaves', 'better', 'best', 'wells', 'harder',
+             'basing', 'leaving', 'nosuch']
+    return ('mo:1', {'lmf_version': '1.3', 'lexicons': [lex]}), forms
+
+
 def run(rep, tier, build, replay=None):
     rng = random.Random(common.seed() * 7919 + 16)
     ncases = 4 if tier == 'quick' else 40
@@ -61,11 +84,15 @@ def run(rep, tier, build, replay=None):
                                       'lemma': {'writtenForm': 'tw%d' % i, 'partOfSpeech': 'n'},
                                       'senses': [{'id': '%s-w%d-s' % (lid, i), 'synset': '%s-%d' % (lid, i), 'meta': None}]})
             return (lid + ':1', {'lmf_version': '1.3', 'lexicons': [lx]})
+        (mname, mres), mforms = morphy_lexicon()
         res = u + [(gname, gres), ('old:1', {'lmf_version': '1.1', 'lexicons': [v10]}),
-                   ('dd:1', {'lmf_version': '1.1', 'lexicons': [multi]}), tl('ta', True), tl('tb', False)]
-        cfgs = coremodel.configs_for(rng, names, small=False)[:5] + [{'lexicon': 'dd:1'}, {'lexicon': 'old:1 dd:1'}]
+                   ('dd:1', {'lmf_version': '1.1', 'lexicons': [multi]}), tl('ta', True), tl('tb', False), (mname, mres)]
+        cfgs = coremodel.configs_for(rng, names, small=False)[:5] + [{'lexicon': 'dd:1'}, {'lexicon': 'old:1 dd:1'},
+                                                                    {'lexicon': 'mo:1', 'lemmatizer': 'morphy'},
+                                                                    {'lexicon': 'mo:1', 'lemmatizer': 'morphy_init'}]
         cases.append({'resources': res, 'configs': cfgs,
-                      'searches': [[rng.choice(coremodel.SEARCH_FORMS), rng.choice([None, 'n', 'v'])] for _ in range(8)],
+                      'searches': [[rng.choice(coremodel.SEARCH_FORMS), rng.choice([None, 'n', 'v'])] for _ in range(8)]
+                      + [[f, None] for f in mforms] + [[f, 'v'] for f in mforms[:4]],
                       'translate_to': [{'lexicon': rng.choice(names)}, {'lang': 'en'}],
                       'graph': {'spec': 'gr:1', 'corpus': corpus},
                       'ic_configs': [['tb:1', 'ta:1'], ['tb:1', ''], ['ta:1', '']],
@@ -97,7 +124,7 @@ def run(rep, tier, build, replay=None):
         'evaluations': len(cases) * len(seeds) * 2,
         'distinct_nontrivial': len(nontriv),
         'rule': 'databases with plain, dependent (several dependencies), second-version and extension lexicons plus a hypernym '
-                'graph lexicon with words; the battery = full observation of 7 Wordnet configurations (every query, navigation, '
+                'graph lexicon with words; the battery = full observation of 9 Wordnet configurations (two with a Morphy lemmatizer, initialized and not, over a lexicon whose lemmas exist for several parts of speech, searched without pos) (every query, navigation, '
                 'relation, closure, path, search and translation call), taxonomy and similarity for all synset pairs with and '
                 'without simulate_root, ic.compute (incl. key order) and IC metrics, validate reports (item order), dump bytes and '
                 'export bytes in 1.0 and 1.1; run under PYTHONHASHSEED in %s and twice per process; transcripts compared as bytes; '
